@@ -34,6 +34,8 @@ SHAPES = {
     # dependencies that exist only through paths the depended-upon target ignores (`ignores` concern change
     # detection, not ordering): app uses lib/docs which lib ignores; svc/plugin is nested in svc which ignores it
     "ignored_edges": ("ign", None),
+    # a dependency through a path that does not exist when the run is planned (the dependency's command generates it)
+    "generated_uses": ("gen", None),
 }
 
 
@@ -68,6 +70,8 @@ def shape_targets(shape):
     if n == "odd":
         # (no space: -t takes a space-delimited list, so a path with a space cannot be named there)
         return [{"path": ".ci"}, {"path": "ci", "uses": [".ci"]}, {"path": "my,target"}, {"path": "x.", "uses": ["my,target"]}]
+    if n == "gen":
+        return [{"path": "proto"}, {"path": "app", "uses": ["proto/gen"]}, {"path": "web", "uses": ["proto/gen/api/v1.ts", "app"]}]
     if n == "ign":
         return [{"path": "lib", "ignores": ["lib/docs"]}, {"path": "app", "uses": ["lib/docs"]}, {"path": "svc", "ignores": ["svc/plugin"]}, {"path": "svc/plugin"}]
     if n == "nested":
@@ -261,6 +265,15 @@ def c16_scenarios(tier):
     for n in ([2, 5, 24] if tier == "quick" else [2, 3, 5, 13, 24, 48]):
         for pos, named in (("middle", "last"), ("only", "all"), ("last", "all")):
             out.append(("c16", {"n": n, "pos": pos, "ncmd": 1, "select": "deps", "named": named}, {}))
+    # under a low soft limit of open files inherited from the invoking shell
+    for n in ([2, 6, 13] if tier == "quick" else [2, 3, 6, 13, 20]):
+        for nofile in (256, 384):
+            for pos in ("only", "middle"):
+                out.append(("c16", {"n": n, "pos": pos, "ncmd": 1, "nofile": nofile}, {}))
+    # ... and the one named target also gets runtime arguments (-a)
+    for n in ([2, 5, 24] if tier == "quick" else [2, 3, 5, 13, 24, 48]):
+        for pos in ("middle", "first"):
+            out.append(("c16", {"n": n, "pos": pos, "ncmd": 1, "select": "deps", "named": "last", "rtargs": True}, {}))
     # some members of the group do not define the command (first / middle / last in declaration order, several)
     for n in ([3, 6, 24] if tier == "quick" else [3, 4, 6, 13, 24, 48]):
         for undef in ([0], [n // 2], [n - 1], [0, 1], [0, n // 2, n - 1]):
@@ -336,10 +349,15 @@ def c16_task(desc):
     if desc.get("select") == "deps":
         # the same plan reached through explicit targets and --deps (the last target of the plan, or all of them)
         named = [t["path"] for t in ts] if desc.get("named") == "all" else [ts[-1]["path"]] if pos in ("middle", "first") else [t["path"] for t in ts]
-        sn = sched.Scenario(sn.name + "/-t+deps", ts, modes, ["-c"] + cmds + ["-t"] + named + ["--deps"], cmds, explicit=named, deps=True)
+        # rtargs: the one named target also gets runtime arguments (-a); its dependencies are started as always
+        rt = ["-a", "v1", "v 2"] if desc.get("rtargs") else []
+        sn = sched.Scenario(sn.name + "/-t+deps" + ("+args" if rt else ""), ts, modes, ["-c"] + cmds + ["-t"] + named + ["--deps"] + rt, cmds, explicit=named, deps=True)
     s = sc.Scratch("c16")
     try:
         r = sched.build_repo(s, sn)
+        if desc.get("nofile"):
+            # the invoking shell has a low soft limit of open files (ulimit -n 256 / 384): far more than a group of this size needs
+            r.limit_open_files(desc["nofile"])
         if desc.get("shared"):
             for c in cmds:
                 r.command_file("", c, "x", cmd_dir="tools", name="%s.sh" % c)
@@ -880,6 +898,145 @@ def c06f_task(desc):
         s.cleanup()
 
 
+def c06g_task(desc):
+    """Runtime arguments (-a, which needs exactly one command and one named target) do not change what counts
+    as a failure: a dependency pulled in by --deps that does not define the command is `undefined`, which fails
+    the run only with --fail-on-undefined."""
+    undef, flag, use_args = desc["undef"], desc["flag"], desc["args"]
+    ts = [{"path": "base"}, {"path": "lib", "uses": ["base"]}, {"path": "app", "uses": ["lib"]}]
+    s = sc.Scratch("c06g")
+    try:
+        cmds = {t["path"]: {"build": "x"} for t in ts if t["path"] != undef}
+        r = sc.Repo(s, "r", ts, commands=cmds, init_git=False)
+        argv = ["run", "-c", "build", "-t", "app", "--deps"] + (["-a", "v1", "v 2"] if use_args else []) + (["--fail-on-undefined"] if flag else [])
+        res = r.mr(*argv, env=r.trace_env())
+        doc = res.json()
+        started = sorted({r.target_pair(x)[0] for x in r.traces()})
+        viol = []
+        label = "%s (%s)" % (" ".join(argv), "every target defines build" if undef is None else "%s does not define build" % undef)
+        if doc is None:
+            viol.append(("no-result-document", "%s: exit %s %s" % (label, res.code, res.err[:200])))
+        else:
+            st = {t: v.get("status") for cr in doc["results"] for g in cr["target_groups"] for t, v in g.items()}
+            trig = bool(flag and undef)
+            if bool(doc.get("failed")) != trig or res.code != (1 if trig else 0):
+                viol.append(("failed-flag-wrong", "%s: failed=%s, exit status %s, statuses %s" % (label, doc.get("failed"), res.code, st)))
+            order = ["base", "lib", "app"]
+            for i, tn in enumerate(order):
+                after_trigger = trig and i > order.index(undef)
+                want = "undefined" if tn == undef else "skipped" if after_trigger else "success"
+                if st.get(tn) != want or ((tn in started) != (want == "success")):
+                    viol.append(("status-wrong", "%s: %s is reported %s (started=%s), expected %s" % (label, tn, st.get(tn), tn in started, want)))
+        return {"evaluations": 1, "nontrivial": 1, "states": 1, "transitions": 1, "unrealised": 0,
+                "violations": [{"sig": sig, "detail": d, "rank": 670, "case": {"c06g": desc}} for sig, d in viol[:4]],
+                "sample": {"args_with_deps": desc}}
+    except common.EngineError as e:
+        return {"engine_error": str(e)}
+    finally:
+        s.cleanup()
+
+
+def c04_long_task(desc):
+    """One executable keeps running for a long time (longer than any period a progress report or watchdog
+    inside monorail might use: 31 s, thorough also 65 s and 125 s) while everything that depends on it - the
+    dependent target and the whole next command - waits: nothing else may start in the meantime."""
+    hold_s = desc["hold_s"]
+    ts = [{"path": "lib"}, {"path": "app", "uses": ["lib"]}]
+    s = sc.Scratch("c04long")
+    try:
+        r = sc.Repo(s, "r", ts, commands={t["path"]: {"build": "x", "test": "x"} for t in ts}, init_git=False)
+        c = sched.ctlmod.Controller(s)
+        try:
+            p = c.spawn("run", [common.MONORAIL, "run", "-c", "build", "test"], r.dir, s.env(c.env()))
+            viol = []
+            order = []
+            expected = [("build", "lib"), ("build", "app"), ("test", "lib"), ("test", "app")]
+            for i, (cmd, tn) in enumerate(expected):
+                c.wait(lambda: len(c.waiting()) >= 1 or p.done(), 20)
+                w = list(c.waiting())
+                if not w:
+                    viol.append(("run-ended-early", "the run ended (exit %s) before %s:%s was started: %s" % (p.code, cmd, tn, p.err[:200])))
+                    break
+                got = [(os.path.basename(ch.argv[0]).split(".")[0], os.path.relpath(ch.cwd, r.dir)) for ch in w]
+                if got != [(cmd, tn)]:
+                    viol.append(("started-before-dependency-exited", "waiting executables %s, expected only %s:%s" % (got, cmd, tn)))
+                    break
+                if i == desc.get("slow", 0):
+                    t_end = time.time() + hold_s
+                    while time.time() < t_end and len(c.waiting()) == 1 and not p.done():
+                        c.pump(0.05)
+                    others = [(os.path.basename(ch.argv[0]).split(".")[0], os.path.relpath(ch.cwd, r.dir)) for ch in c.waiting() if ch is not w[0]]
+                    if others or p.done():
+                        viol.append(("started-before-dependency-exited", "%s:%s had been running for %.0f s (of %d) when %s" % (
+                            cmd, tn, hold_s - max(0, t_end - time.time()), hold_s, ("%s was started" % others) if others else "the run ended with exit %s" % p.code)))
+                        break
+                order.append((cmd, tn))
+                c.release(w[0], 0, ["out " + ("%s of %s\n" % (cmd, tn)).encode().hex()])
+                c.wait(lambda: w[0].state == "gone", 5)
+            for ch in list(c.waiting()):
+                c.release(ch, 0)
+            c.wait(lambda: p.done(), 20)
+            if not p.done():
+                c.kill(p, group=True)
+                c.wait(lambda: p.done(), 5)
+                viol.append(("run-hung", "the run did not finish"))
+            doc = sc.Result(p.code, p.out, p.err).json()
+            if not viol:
+                st = {(cr["command"], t_): v.get("status") for cr in (doc or {}).get("results", []) for g in cr["target_groups"] for t_, v in g.items()}
+                if doc is None or doc.get("failed") or p.code != 0 or any(st.get(k) != "success" for k in expected):
+                    viol.append(("slow-run-misreported", "every executable exited 0 (one after %d s): exit %s, failed=%s, statuses %s" % (hold_s, p.code, doc and doc.get("failed"), st)))
+            return {"evaluations": 1, "nontrivial": 1, "states": len(order), "transitions": len(order),
+                    "violations": [{"sig": sig, "detail": d, "rank": 700, "case": {"c04long": desc}} for sig, d in viol],
+                    "sample": {"long_running_executable_s": hold_s}}
+        finally:
+            c.close()
+    except common.EngineError as e:
+        return {"engine_error": str(e)}
+    finally:
+        s.cleanup()
+
+
+def c06h_task(desc):
+    """A failure inside a very wide group (more members than any batch size monorail might use internally:
+    130, 257, thorough also 513): whichever member fails, the run reports failed=true, exits 1, the dependent
+    target is skipped and nothing of the next command is started."""
+    n, k = desc["n"], desc["fail"]
+    names = ["t%03d" % i for i in range(n)]
+    ts = [{"path": p_} for p_ in names] + [{"path": "zpost", "uses": list(names)}]   # (depends on every member, so that the members form one group)
+    s = sc.Scratch("c06h")
+    try:
+        r = sc.Repo(s, "r", ts, commands={t["path"]: {"build": "x", "test": "x"} for t in ts}, init_git=False)
+        r.set_script(names[k], "build", ["err " + b"member fails\n".hex(), "exit 7"])
+        res = r.mr("run", "-c", "build", "test", env=r.trace_env(), timeout=300)
+        doc = res.json()
+        started = {}
+        for rec in r.traces():
+            t_, c_ = r.target_pair(rec)
+            started.setdefault(c_, set()).add(t_)
+        viol = []
+        if doc is None:
+            viol.append(("no-result-document", "group of %d, member %d exits 7: exit %s %s" % (n, k, res.code, res.err[:200])))
+        else:
+            st = {(cr["command"], t_): v for cr in doc["results"] for g in cr["target_groups"] for t_, v in g.items()}
+            fv = st.get(("build", names[k])) or {}
+            if fv.get("status") != "error" or fv.get("code") != 7:
+                viol.append(("failure-not-reported", "group of %d: member %s exited 7 but is reported %s" % (n, names[k], fv)))
+            if not doc.get("failed") or res.code != 1:
+                viol.append(("failed-flag-wrong", "group of %d, member #%d (%s) exits 7: failed=%s, exit status %s" % (n, k, names[k], doc.get("failed"), res.code)))
+            if (st.get(("build", "zpost")) or {}).get("status") != "skipped" or "zpost" in started.get("build", set()):
+                viol.append(("later-group-not-skipped", "group of %d, member #%d fails: the dependent target is reported %s, started=%s" % (n, k, st.get(("build", "zpost")), "zpost" in started.get("build", set()))))
+            nts = [t_ for (c_, t_), v in st.items() if c_ == "test" and v.get("status") != "skipped"]
+            if nts or started.get("test"):
+                viol.append(("later-command-not-skipped", "group of %d, member #%d fails: %d entries of the next command are not `skipped`, %d of its executables were started" % (n, k, len(nts), len(started.get("test", ())))))
+        return {"evaluations": 1, "nontrivial": 1, "states": n, "transitions": n, "unrealised": 0,
+                "violations": [{"sig": sig, "detail": d, "rank": 680, "case": {"c06h": desc}} for sig, d in viol],
+                "sample": {"wide_group": n, "failing_member": k}}
+    except common.EngineError as e:
+        return {"engine_error": str(e)}
+    finally:
+        s.cleanup()
+
+
 def c06c_task(desc):
     """C06 under delays of the compressor threads (guarded point compressor.loop): the scenario of
     p_c08.order_task judged for the failed flag, exit status, statuses and skipping."""
@@ -982,14 +1139,26 @@ def c05_scenarios(tier):
                     if pi == 0 and n > 1 and mname in ("all", "explicit+deps") and cmds == ["build"] and cp is None:
                         # explicit command definitions on a subset of targets, reversed declaration order
                         for defs in ([paths[0]], [paths[-1]], paths[::2]):
-                            out.append(("c05", {"shape": sh, "modes": [[t, c, m] for (t, c), m in sorted(modes.items())], "args": a, "commands": cmds,
-                                                "sequences": seqs, "checkpoint": cp, "changed": changed, "explicit": explicit, "deps": deps,
-                                                "defs": defs}, {}))
+                            for stale in (False, True):
+                                out.append(("c05", {"shape": sh, "modes": [[t, c, m] for (t, c), m in sorted(modes.items())], "args": a, "commands": cmds,
+                                                    "sequences": seqs, "checkpoint": cp, "changed": changed, "explicit": explicit, "deps": deps,
+                                                    "defs": defs, "stale": stale}, {}))
         # further flags that must not change what is selected: --no-base-argmaps (alone, and with -m naming a file nobody has)
         modes = all_x(ts, ["build", "test"])
         for extra in (["--no-base-argmaps"], ["--no-base-argmaps", "-m", "nobody-has-this"], ["-m", "nobody-has-this"]):
             for (explicit, deps) in ((paths[-1:], False), (paths, False), (paths[-1:], True), (None, False)):
                 a = ["-c", "build"] + (["-t"] + explicit + (["--deps"] if deps else []) if explicit else []) + extra
+                out.append(("c05", {"shape": sh, "modes": [[t, c, m] for (t, c), m in sorted(modes.items())], "args": a, "commands": ["build"],
+                                    "sequences": None, "checkpoint": None, "changed": None, "explicit": explicit, "deps": deps}, {}))
+        # --deps without -t adds nothing: still exactly the changed targets
+        if len(paths) > 1:
+            for changed in (paths[:1], paths[-1:]):
+                out.append(("c05", {"shape": sh, "modes": [[t, c, m] for (t, c), m in sorted(modes.items())], "args": ["-c", "build", "--deps"], "commands": ["build"],
+                                    "sequences": None, "checkpoint": "head", "changed": changed, "explicit": None, "deps": False}, {}))
+        # runtime arguments (-a needs one command and one named target) do not change what is selected
+        for explicit in (paths[-1:], paths[:1]):
+            for deps in (True, False):
+                a = ["-c", "build", "-t"] + explicit + (["--deps"] if deps else []) + ["-a", "v1", "v 2"]
                 out.append(("c05", {"shape": sh, "modes": [[t, c, m] for (t, c), m in sorted(modes.items())], "args": a, "commands": ["build"],
                                     "sequences": None, "checkpoint": None, "changed": None, "explicit": explicit, "deps": deps}, {}))
         # an executable that dies by a signal (first target's first command / last target's last command)
@@ -1035,6 +1204,9 @@ def c05_task(desc):
         for (t, c) in ext:
             r.command_file(t, c, "x", cmd_dir="ext/%s" % t, name="%s.sh" % c)
             modes[(t, c)] = "x"
+            if desc.get("stale"):
+                # the script the definition replaced is still lying in the default directory, under the command's name
+                r.command_file(t, c, "x")
         if ext:
             r.commit("definitions")
             if desc["checkpoint"]:
@@ -1069,6 +1241,8 @@ def c05_task(desc):
         for rec in traces:
             t, c = r.target_pair(rec)
             started[(c, t)] = started.get((c, t), 0) + 1
+            if (t, c) in ext and os.path.relpath(rec["argv"][0], r.dir) != "ext/%s/%s.sh" % (t, c):
+                viol.append(("started-other-file", "%s:%s is defined as ext/%s/%s.sh but %s was started" % (c, t, t, c, os.path.relpath(rec["argv"][0], r.dir))))
         all_targets = sorted(tm)
         if desc["explicit"] is not None and not desc["deps"]:
             iv = sorted((rec["start"], rec.get("end", rec["start"]), r.target_pair(rec)) for rec in traces)
@@ -1275,6 +1449,12 @@ def _worker(task):
             return c06e_task(desc)
         if kind == "c06f":
             return c06f_task(desc)
+        if kind == "c06g":
+            return c06g_task(desc)
+        if kind == "c04long":
+            return c04_long_task(desc)
+        if kind == "c06h":
+            return c06h_task(desc)
     except common.EngineError as e:
         return {"engine_error": "%s: %s" % (kind, e)}
     except Exception:
@@ -1286,9 +1466,9 @@ def run_tasks(tasks, workers=None):
 
 
 RULES = {
-    "C04": "(thorough adds every labelled DAG on 2-4 nodes, single command, every release order) scenarios: 12 dependency shapes x selection modes (all targets / changed subset after a checkpoint / -t with --deps) x command lists (build; build test; sequence(build,test) then lint); every child blocks until released; stateless DFS over every release order (single-command scenarios: all orders; multi-command: all schedules with <= max_dev non-default choices) plus the eager deviation for every single child; monitor: at each arrival every dependency in the run and every executable of every earlier command has exited; evaluations = executions (complete runs); non-trivial = scenarios with more than one schedule",
+    "C04": "(plus one executable of a two-target, two-command plan that keeps running for 31 s - thorough also 65 s and 125 s - while its dependants wait) (thorough adds every labelled DAG on 2-4 nodes, single command, every release order) scenarios: 12 dependency shapes x selection modes (all targets / changed subset after a checkpoint / -t with --deps) x command lists (build; build test; sequence(build,test) then lint); every child blocks until released; stateless DFS over every release order (single-command scenarios: all orders; multi-command: all schedules with <= max_dev non-default choices) plus the eager deviation for every single child; monitor: at each arrival every dependency in the run and every executable of every earlier command has exited; evaluations = executions (complete runs); non-trivial = scenarios with more than one schedule",
     "C16": "(plus groups whose members all resolve the command to one shared executable, through definitions or a shared commands.path) (plus group sizes 2..13 with a `log tail` listener attached, three filter variants) (plus chains of wide groups, e.g. 30/30/10 and 40/40 under 1-2 commands, so that many tasks precede the group under test) group sizes x position of the group in the plan (only, first, middle, last) x 1-2 commands; no member is released before every member of the group has arrived (each member waits for all the others to start); oracle: every member arrives, then the run exits 0 with all success entries; non-trivial = scenarios where the full group rendezvoused for every command",
-    "C06": "part B (internal orderings): plans with a group of n in {1,2,3} (thorough 4) followed by a dependent target, all commands succeed, points group.pre_shutdown:<i> and compressor.gone:<x> active; the free run, every single constraint `compressor.gone:x before group.pre_shutdown:i` per group and pairs of constraints (hit b is held until hit a was seen); oracle exit 0, failed=false, all success, stored logs complete; plus the compressor-delay scenarios of C08 (guarded point compressor.loop: free / held until the group is joined / until the first shutdown request / one request behind) x no failure and each member failing last, judged for failed flag, exit status, statuses and skipping of the dependent group; plus runs without any failure in which one member leaves a helper process behind that holds its output streams open (0.6 - 2.5 s) while a sibling is still running; plus an earlier command taking away / granting the execute bit of a later target's command file during the run; plus command files of every permission mode 0000-0777 (quick: 48 of them), started exactly when they carry an execute bit. part A: plans = dependency shapes with two commands; fault assignments: every single fault (exit codes, death by signal, missing x bit, undefined with/without --fail-on-undefined) at every (command,target) position, pairs of faults within a command, and no fault; every exit code 1..255 at one position of the fork shape (default schedule); a subset again with an earlier failed / successful run's records on disk and with a listener attached; for each every release order of the groups (<=3 members); oracle: failed flag, exit status, skipped/not-started later groups and commands, status truthfulness; evaluations = executions",
+    "C06": "part B (internal orderings): plans with a group of n in {1,2,3} (thorough 4) followed by a dependent target, all commands succeed, points group.pre_shutdown:<i> and compressor.gone:<x> active; the free run, every single constraint `compressor.gone:x before group.pre_shutdown:i` per group and pairs of constraints (hit b is held until hit a was seen); oracle exit 0, failed=false, all success, stored logs complete; plus the compressor-delay scenarios of C08 (guarded point compressor.loop: free / held until the group is joined / until the first shutdown request / one request behind) x no failure and each member failing last, judged for failed flag, exit status, statuses and skipping of the dependent group; plus runs without any failure in which one member leaves a helper process behind that holds its output streams open (0.6 - 2.5 s) while a sibling is still running; plus an earlier command taking away / granting the execute bit of a later target's command file during the run; plus command files of every permission mode 0000-0777 (quick: 48 of them), started exactly when they carry an execute bit; plus a failing member at several positions of groups of 130 / 257 (thorough 513) targets; plus -t app --deps with and without -a values, with and without --fail-on-undefined, where none / each one of the three targets of the chain does not define the command. part A: plans = dependency shapes with two commands; fault assignments: every single fault (exit codes, death by signal, missing x bit, undefined with/without --fail-on-undefined) at every (command,target) position, pairs of faults within a command, and no fault; every exit code 1..255 at one position of the fork shape (default schedule); a subset again with an earlier failed / successful run's records on disk and with a listener attached; for each every release order of the groups (<=3 members); oracle: failed flag, exit status, skipped/not-started later groups and commands, status truthfulness; evaluations = executions",
     "C05": "(plus variants in which some targets define the command through commands.definitions with explicit paths and the declaration order is reversed) dependency shapes x command-definition patterns x command lists x selection modes (no targets without checkpoint; checkpoint + every changed subset; -t S; -t S --deps; the -t forms also with a checkpoint present) in trace mode; oracle: result document pairs == commands x selected targets exactly once, groups equal analyze --target-groups taken immediately before (or singletons / a valid layering of the closure), executable starts at most once, exactly once iff defined and nothing failed earlier, never when undefined; evaluations = runs",
 }
 
@@ -1304,7 +1484,12 @@ def run(prop, tier):
             ([("c06c", d, {}) for d in p_c08.order_scenarios(tier)] if "B" in part else []) + \
             ([("c06d", {"n": n_, "linger_ms": lm, "sibling_ms": sm}, {}) for n_ in (2, 3) for (lm, sm) in ((1500, 700), (600, 1200), (2500, 300))] if "B" in part else []) + \
             ([("c06e", {"direction": d_}, {}) for d_ in ("revoke", "grant")] if "B" in part else []) + \
-            ([("c06f", {"modes": ms}, {}) for ms in c06f_modes(tier)] if "B" in part else [])
+            ([("c06f", {"modes": ms}, {}) for ms in c06f_modes(tier)] if "B" in part else []) + \
+            ([("c06h", {"n": n_, "fail": k_}, {}) for (n_, k_) in ([(130, 0), (130, 129), (257, 5), (257, 200)] if tier == "quick" else [(130, 0), (130, 64), (130, 129), (257, 5), (257, 128), (257, 256), (513, 1), (513, 300)])] if "B" in part else []) + \
+            ([("c06g", {"undef": u_, "flag": f_, "args": a_}, {}) for u_ in (None, "base", "lib", "app") for f_ in (False, True) for a_ in (False, True)] if "B" in part else [])
+    if prop == "C04":
+        # first in the list: it takes half a minute of waiting, the pool works on the others meanwhile
+        tasks = [("c04long", {"hold_s": h_, "slow": s_}, {}) for (h_, s_) in ([(31, 0)] if tier == "quick" else [(31, 0), (31, 1), (65, 0), (125, 2)])] + tasks
     results = run_tasks(tasks)
     errs = [r["engine_error"] for r in results if r and "engine_error" in r]
     results = [r for r in results if r and "engine_error" not in r]
@@ -1377,6 +1562,12 @@ def replay(prop, path):
         r = c06e_task(case["c06e"])
     elif "c06f" in case:
         r = c06f_task(case["c06f"])
+    elif "c06g" in case:
+        r = c06g_task(case["c06g"])
+    elif "c04long" in case:
+        r = c04_long_task(case["c04long"])
+    elif "c06h" in case:
+        r = c06h_task(case["c06h"])
     elif "c05" in case:
         r = c05_task(case["c05"])
     else:
